@@ -7,7 +7,8 @@ import drvlib as D
 import harness_drv as H
 
 OBLIGATIONS = ['Cvise.C01.runPass_safe', 'Cvise.C02.reduce_schedule_irrelevant', 'Cvise.C10.cache_entries_are_results',
-               'Cvise.C10.replay_is_recorded_result']
+               'Cvise.C10.replay_is_recorded_result', 'Cvise.C10.cache_transparent', 'Cvise.C10.cache_transparent_files',
+               'Cvise.C10.shipped_facts', 'Cvise.C10.decr_good']
 
 
 def scens(ctx, n, files=(1,)):
